@@ -425,38 +425,58 @@ def _from_cwd():
             (outer, None), (outer / "other", None), (outer / "other" / "deep", None),
             (outer / "dircfg", None), (outer / "dircfg" / "below", None), (scratch, None),
         ]
-        for cwd, exp_root in cases:
-            inp = {"cwd": str(cwd.relative_to(scratch)),
-                   "config_files": ["outer/proj/cond_config.toml", "outer/proj/nested/cond_config.toml"],
-                   "config_named_directories": ["outer/dircfg/cond_config.toml/", "outer/proj/cfgdir/cond_config.toml/"]}
-            a.ev += 1
-            if exp_root is not None and cwd != exp_root:
-                a.nt += 1
-                a.sample(inp)
-            os.chdir(cwd)
-            try:
-                ctx = Context.from_cwd()
-                got = ctx.project_root
-                got_out = ctx.output_path
-                ctx.version_index._conn.close()
-            except errors.MissingProjectRoot:
-                got, got_out = None, None
-            except Exception as ex:
-                got, got_out = "%s: %s" % (type(ex).__name__, ex), None
-            finally:
-                os.chdir(old_cwd)
-            if got != exp_root:
-                if exp_root is None:
-                    cls = "project-root-found-outside-a-project"
-                elif got is None:
-                    cls = "project-root-not-found"
-                elif isinstance(got, str):
-                    cls = "from_cwd-raises"
+        links = scratch / "links"          # symlinks that live OUTSIDE every project and point into the tree
+        links.mkdir()
+        old_pwd = os.environ.get("PWD")
+        for k, (cwd, exp_root) in enumerate(cases):
+            link = links / ("l%d" % k)
+            os.symlink(cwd, link)
+            # how the directory was entered / what the shell exported: $PWD unset, physical, logical (through the
+            # symlink, as `cd ~/shortcut` leaves it), stale (left over from another directory)
+            for how, enter, pwd in (("PWD-unset", cwd, None), ("PWD-physical", cwd, str(cwd)),
+                                    ("entered-through-symlink-PWD-logical", link, str(link)),
+                                    ("PWD-stale", cwd, str(outer / "other"))):
+                inp = {"cwd": str(cwd.relative_to(scratch)), "entered_as": how,
+                       "config_files": ["outer/proj/cond_config.toml", "outer/proj/nested/cond_config.toml"],
+                       "config_named_directories": ["outer/dircfg/cond_config.toml/", "outer/proj/cfgdir/cond_config.toml/"]}
+                a.ev += 1
+                if exp_root is not None and cwd != exp_root:
+                    a.nt += 1
+                    a.sample(inp)
+                os.chdir(enter)
+                if pwd is None:
+                    os.environ.pop("PWD", None)
                 else:
-                    cls = "not-the-nearest-ancestor"
-                a.fail("nearest_ancestor", cls, inp, exp_root, got)
-            elif exp_root is not None and got_out != exp_root / "cond-out":
-                a.fail("output_path", "output-path-not-under-root", inp, exp_root / "cond-out", got_out)
+                    os.environ["PWD"] = pwd
+                try:
+                    ctx = Context.from_cwd()
+                    got = ctx.project_root
+                    got_out = ctx.output_path
+                    ctx.version_index._conn.close()
+                except errors.MissingProjectRoot:
+                    got, got_out = None, None
+                except Exception as ex:
+                    got, got_out = "%s: %s" % (type(ex).__name__, ex), None
+                finally:
+                    os.chdir(old_cwd)
+                    if old_pwd is None:
+                        os.environ.pop("PWD", None)
+                    else:
+                        os.environ["PWD"] = old_pwd
+                if got != exp_root:
+                    if exp_root is None:
+                        cls = "project-root-found-outside-a-project"
+                    elif got is None:
+                        cls = "project-root-not-found"
+                    elif isinstance(got, str):
+                        cls = "from_cwd-raises"
+                    else:
+                        cls = "not-the-nearest-ancestor"
+                    if how != "PWD-unset":
+                        cls += "-when-" + how
+                    a.fail("nearest_ancestor", cls, inp, exp_root, got)
+                elif exp_root is not None and got_out != exp_root / "cond-out":
+                    a.fail("output_path", "output-path-not-under-root", inp, exp_root / "cond-out", got_out)
     finally:
         os.chdir(old_cwd)
         shutil.rmtree(scratch, ignore_errors=True)
@@ -651,7 +671,7 @@ def run(tier, seed):
                     "distinct (tree, flags) pairs of runs; non-trivial = something is deleted or listed from the root",
                     wall_gc),
         cwd_acc.result("C17.from_cwd.nearest_ancestor", "C17", "context.py::Context.from_cwd",
-                       "16 working directories in a scratch tree: project root, nested directories, inside cond-out, "
+                       "16 working directories x 4 ways of entering them ($PWD unset / physical / logical through a symlink outside the project / stale) in a scratch tree: project root, nested directories, inside cond-out, "
                        "a nested project (own cond_config.toml), directories named cond_config.toml, outside any "
                        "project", True,
                        "distinct working directories; non-trivial = inside a project but not at its root", wall_cwd),
